@@ -186,6 +186,27 @@ class Escape:
                         ok = False
                         break
                 return ok
+            # ... or the object is a parameter of a (non-virtual) helper and every caller passes an object it has tested
+            pidx = next((k for k, p_ in enumerate(f.params) if p_["name"] == obj), None)
+            if pidx is not None and not f.d.get("virtual") and f.kind in ("function", "method") and not getattr(self, "_in_caller_check", False):
+                edges = [e for e in self.cg.callers(f.usr) if isinstance(e.node, int)]
+                ok = bool(edges)
+                for e in edges:
+                    cf = self.prog.fns.get(e.src)
+                    cn = cf.nodes[e.node] if cf is not None else None
+                    if cf is None or cn is None or pidx >= len(cn.get("args", [])):
+                        ok = False
+                        break
+                    arg = cf.text(cn["args"][pidx])
+                    try:
+                        gc = self.flow(cf).guards(e.node)
+                    except KeyError:
+                        ok = False
+                        break
+                    if ("%s.isRoot()" % arg, False) not in gc:
+                        ok = False
+                        break
+                return ok
             return False
         if last == "at" and callee.startswith(("std::map", "std::unordered_map")):
             key = f.text(n["args"][0]) if n.get("args") else "?"
